@@ -511,7 +511,46 @@ func scanWords(s string) (words []word, strs []word, spaces []int) {
 func normSibling(r *rng, s string) string {
 	words, strs, spaces := scanWords(s)
 	for tries := 0; tries < 6; tries++ {
-		switch r.intn(6) {
+		switch r.intn(11) {
+		case 6: // CR LF line endings
+			if !strings.Contains(s, "\n") {
+				continue
+			}
+			return strings.ReplaceAll(s, "\n", "\r\n")
+		case 7: // a byte-order mark, or tabs / form feeds / vertical tabs for spaces
+			if r.intn(2) == 0 {
+				return "\xef\xbb\xbf" + s
+			}
+			if len(spaces) == 0 {
+				continue
+			}
+			b := []byte(s)
+			for _, i := range spaces {
+				if r.intn(3) == 0 {
+					b[i] = "\t\f\v\r"[r.intn(4)]
+				}
+			}
+			return string(b)
+		case 8: // a non-ASCII letter, an invalid UTF-8 byte or a NUL inside a word
+			if len(words) == 0 {
+				continue
+			}
+			w := words[r.intn(len(words))]
+			ins := []string{"é", "ß", "日本", "\xff", "\xc3", "\x00", "\u2028", "\u00a0"}[r.intn(8)]
+			m := w.lo + r.intn(w.hi-w.lo+1)
+			return s[:m] + ins + s[m:]
+		case 9: // the same inside a string literal or a comment
+			ins := []string{"é", "\xff\xfe", "\x00", "\r", "\u2029", "𝔘"}[r.intn(6)]
+			if len(strs) > 0 && r.intn(2) == 0 {
+				w := strs[r.intn(len(strs))]
+				return s[:w.lo+1] + ins + s[w.lo+1:]
+			}
+			return s + " -- c" + ins + "\n/* " + ins + " */"
+		case 10: // hundreds of newlines, or one very long line
+			if r.intn(2) == 0 {
+				return strings.Repeat("\n", 200+r.intn(800)) + s + strings.Repeat("\r\n", r.intn(50))
+			}
+			return strings.ReplaceAll(s, "\n", " ") + strings.Repeat(" ", 3000+r.intn(3000)) + "-- end"
 		case 0, 1: // a.b -> `a.b` (quote-merge two path components)
 			var dotted []int
 			for i := 0; i+1 < len(words); i++ {
